@@ -219,6 +219,13 @@ def coq_eval(header, exprs, shards=None, timeout=1800, tag="cases"):
     lists (vm_compute inside coqc).  Work is split over parallel coqc runs."""
     if not exprs:
         return []
+    # bound the size of one coqc run (memory): large batches are evaluated in rounds
+    limit = NCPU * int(os.environ.get("VERIF_MAX_PER_SHARD", "600"))
+    if shards is None and len(exprs) > limit:
+        out = []
+        for lo in range(0, len(exprs), limit):
+            out += coq_eval(header, exprs[lo:lo + limit], None, timeout, tag)
+        return out
     shards = shards or min(NCPU, max(1, len(exprs) // 40))
     os.makedirs(os.path.join(BUILD, "tmp"), exist_ok=True)
     d = tempfile.mkdtemp(prefix=tag, dir=os.path.join(BUILD, "tmp"))
